@@ -19,14 +19,15 @@ import (
 //
 //	LEVEL ::= (PARENT (FN*) ATTR)    PARENT ::= - | <index of an earlier level>;  FN ::= p | q | r  (a member function
 //	                                 Callable[[0,0],Integer]; `override => true` is added exactly when an ancestor has a
-//	                                 function of that name);  ATTR ::= t | f  (the level declares attribute n<i>, Integer
-//	                                 with default 0)
+//	                                 function of that name) | P | Q  (the function p / q with ANOTHER type,
+//	                                 Callable[[0,0],String]: roots only);  ATTR ::= t | f  (the level declares attribute
+//	                                 n<i>, Integer with default 0) | p  (it declares an ATTRIBUTE named p: roots only)
 //
 // The reading of the code that is asserted (types/objecttype.go IsAssignable / Implements / InitFromHash):
 //   - a type is an INTERFACE iff it has no attributes, and either its parent is an interface, or it has no parent and declares
 //     a function;
 //   - an interface accepts exactly the object types that have EVERY function of the interface — declared by it or by any of
-//     its ancestors — as a function member of an equal type (here: of the same name);
+//     its ancestors — as a FUNCTION member (an attribute of that name does not count) of an EQUAL type;
 //   - any other type accepts exactly itself and its descendants.
 // Every level gets one instance (`new(T)`); `IsInstance(T_i, o_j)` is compared with that reading for all i, j.
 // Classes: ifacex-rejected (the definition or the construction was refused), ifacex-instance, fault.
@@ -34,8 +35,9 @@ var ifxCounter int64
 
 type ifxLevel struct {
 	parent int
-	funcs  []string
+	funcs  []string // p q r P Q
 	attr   bool
+	attrP  bool // the attribute is named p
 }
 
 func execIfaceX(c px.Context, args []sx.Sexp) core.Result {
@@ -56,15 +58,29 @@ func execIfaceX(c px.Context, args []sx.Sexp) core.Result {
 				}
 			}
 			for _, f := range e.List[1].List {
-				if f.IsList || (f.Atom != "p" && f.Atom != "q" && f.Atom != "r") {
+				if f.IsList || !strings.Contains("pqrPQ", f.Atom) || len(f.Atom) != 1 {
 					panic(fmt.Errorf("bad function %s", f))
+				}
+				if (f.Atom == "P" || f.Atom == "Q") && l.parent >= 0 {
+					panic(fmt.Errorf("%s on a level with a parent", f.Atom))
 				}
 				l.funcs = append(l.funcs, f.Atom)
 			}
-			if repeats(l.funcs) {
+			var low []string
+			for _, f := range l.funcs {
+				low = append(low, strings.ToLower(f))
+			}
+			if repeats(low) {
 				panic(fmt.Errorf("repeated function %s", e))
 			}
-			l.attr = e.List[2].MustBool()
+			if a := e.List[2]; !a.IsList && a.Atom == "p" {
+				l.attr, l.attrP = true, true
+				if l.parent >= 0 || repeats(append(low, "p")) {
+					panic(fmt.Errorf("attribute p on a level with a parent or a function p"))
+				}
+			} else {
+				l.attr = a.MustBool()
+			}
 			lv = append(lv, l)
 		}
 	}); cls != "" {
@@ -72,7 +88,7 @@ func execIfaceX(c px.Context, args []sx.Sexp) core.Result {
 	}
 	// the asserted reading
 	n := len(lv)
-	funcs := make([]map[string]bool, n) // own and inherited
+	funcs := make([]map[string]bool, n) // own and inherited, by name+type: "p" = p returning Integer, "P" = p returning String
 	hasAttr := make([]bool, n)          // own or inherited
 	iface := make([]bool, n)
 	anc := make([]map[int]bool, n)
@@ -117,15 +133,20 @@ func execIfaceX(c px.Context, args []sx.Sexp) core.Result {
 				if len(l.funcs) > 0 {
 					var fs []string
 					for _, f := range l.funcs {
-						if l.parent >= 0 && funcs[l.parent][f] {
+						switch {
+						case f == "P" || f == "Q":
+							fs = append(fs, strings.ToLower(f)+" => Callable[[0,0],String]")
+						case l.parent >= 0 && funcs[l.parent][f]:
 							fs = append(fs, f+" => {type => Callable[[0,0],Integer], override => true}")
-						} else {
+						default:
 							fs = append(fs, f+" => Callable[[0,0],Integer]")
 						}
 					}
 					entries = append(entries, "functions => {"+strings.Join(fs, ", ")+"}")
 				}
-				if l.attr {
+				if l.attrP {
+					entries = append(entries, "attributes => {p => {type => Integer, value => 0}}")
+				} else if l.attr {
 					entries = append(entries, fmt.Sprintf("attributes => {n%d => {type => Integer, value => 0}}", i))
 				}
 				var tp px.Type
@@ -272,7 +293,7 @@ func genIfaceX(g *core.G) {
 	}
 	// chains of 1..3 levels over 5 level shapes, each with one stranger root out of 4
 	shapes := []string{"() f", "() t", "(p) f", "(q) f", "(p) t"}
-	strangers := []string{"(- (p) f)", "(- (q) f)", "(- (p q) f)", "(- (q) t)", "(- (r) f)"}
+	strangers := []string{"(- (p) f)", "(- (q) f)", "(- (p q) f)", "(- (q) t)", "(- (r) f)", "(- (P) f)", "(- (q) p)", "(- (P q) t)", "(- (Q p) f)"}
 	var rec func(levels []string)
 	k := 0
 	rec = func(levels []string) {
